@@ -40,9 +40,10 @@ class GotranPythonCodePrinter(PythonCodePrinter):
 
     def _hprint_Pow(self, expr, rational=False, sqrt="numpy.sqrt"):
         value = super()._hprint_Pow(expr, rational, sqrt)
-        if expr.exp == -sympy.S.Half and not rational:
-            # x**(-1/2) is printed as 1/sqrt(x), which needs parentheses when it is
-            # itself a denominator: a/(1/sqrt(x)) would be printed as a/1/sqrt(x)
+        if (expr.exp == -sympy.S.Half or expr.exp == sympy.S.NegativeOne) and not rational:
+            # x**(-1/2) is printed as 1/sqrt(x) and x**(-1) as 1/x, which need parentheses
+            # when they are denominators themselves: a/(1/sqrt(x)) would be printed as
+            # a/1/sqrt(x)
             value = f"({value})"
         return value
 
